@@ -4,7 +4,7 @@ import math
 import numpy as np
 from hypothesis import strategies as st
 
-from ..core import EPS32, given_law
+from ..core import EPS32, given_law, plain_law
 from .. import gen
 from ..oracles import slopes, vk
 
@@ -211,6 +211,38 @@ def cov_body(ctx, cfg):
             ctx.require(not np.any(g), "slope covariance matrix has no positive eigenvalue but is not zero")
 
 
+# ------------------------------------------------------------------ a sensor of realistic order
+
+def big_cases(tier):
+    return [{"n": 28, "D": 8.0}] + ([{"n": 26, "D": 4.2}, {"n": 31, "D": 8.0}] if tier != "quick" else [])
+
+
+def big_body(ctx, case):
+    """One Shack-Hartmann of 26 x 26 .. 31 x 31 sub-apertures (more than 512 active ones: pairs of such sensors have more than
+    2^18 sub-aperture pairs, where an implementation may start to work in blocks) next to a 6 x 6 laser sensor, two layers:
+    every entry against the oracle, symmetry, positive semi-definiteness."""
+    from aotools.functions.pupil import circle
+    n, D = case["n"], case["D"]
+    m = circle(n / 2.0, n).astype(int)
+    # a few sub-apertures vignetted, so that the number of active ones is a prime: no way of cutting the sensor into equal
+    # groups exists
+    is_prime = lambda q: q >= 2 and all(q % d for d in range(2, int(q ** 0.5) + 1))
+    lit = np.argwhere(m == 1)
+    k_ = 0
+    while not is_prime(int(m.sum())):
+        m[tuple(lit[k_])] = 0
+        k_ += 1
+    cfg = {"arg_types": "lists", "surplus": 0, "n_wfs": 2, "pupil_masks": [m, circle(3, 6).astype(int)], "mask_kinds": ["circle", "circle"], "telescope_diameter": D,
+           "subap_diameters": [D / n, D / 6], "gs_altitudes": [0, 90e3], "gs_positions": [[0.0, 0.0], [20.0, -10.0]], "wfs_wavelengths": [500e-9, 589e-9],
+           "n_layers": 2, "layer_altitudes": [0.0, 9000.0], "layer_r0s": [0.15, 0.4], "layer_L0s": [25.0, 60.0]}
+    ctx.case(case, nontrivial=True, classes=["n%d_active%d" % (n, int(m.sum()))])
+    got, cm = build(cfg)
+    g, want, judged = compare(ctx, got, cfg, what="slope covariance (sensor of %d active sub-apertures)" % int(m.sum()))
+    ctx.equal(got, got.T, "slope covariance matrix is not exactly symmetric")
+    ev = np.linalg.eigvalsh(0.5 * (g + g.T))
+    ctx.require(ev[0] >= -1e-5 * ev[-1], "slope covariance matrix not positive semi-definite: lambda_min/lambda_max = %.3g" % (ev[0] / ev[-1]))
+
+
 # ------------------------------------------------------------------ metamorphic relations (independent of the oracle)
 
 @st.composite
@@ -351,6 +383,7 @@ def self_test():
 
 
 LAWS = [
+    plain_law("realistic_order", big_cases, big_body, shards={"quick": 1, "thorough": 3}),
     given_law("rebuild_history", rebuild_cases(), rebuild_body, {"quick": 20, "thorough": 150}, shards={"quick": 4, "thorough": 16}),
     given_law("oracle_xl", geometry(max_wfs=6, max_n=10, max_layers=4), cov_body, {"quick": 0, "thorough": 25}, shards={"quick": 1, "thorough": 16}),
     given_law("oracle", geometry(), cov_body, {"quick": 70, "thorough": 600}, shards={"quick": 6, "thorough": 16}),
